@@ -395,6 +395,9 @@ impl<T> Future for ReceiveFuture<'_, T> {
                 },
                 _ => {
                     if this.is_stream {
+                        // the previous signal is in its final state, the next
+                        // item needs a fresh one
+                        this.sig = Signal::new_async();
                         this.state = FutureState::Zero;
                         continue;
                     }
